@@ -160,9 +160,10 @@ func (c *s4ctx) allowed(s s4Site) (reason string, note bool) {
 	case *ssa.MapUpdate:
 		// 5. the config copy of the FC layer shares the Initializers map with the caller's config: filling in the defaults
 		//    writes the caller's map when it is non-nil.  No tensor or slice is involved and no property covers it.
-		if c.fnFCConfig != nil && s.fn == c.fnFCConfig {
-			if fr, ok := loadOfField(x.Map); ok && fr.Name == "Initializers" && fr.Struct.Obj().Name() == "FCConfig" {
-				return "fills default initializers into the Initializers map of the config copy, which is the caller's map when that was non-nil (config data, no tensor memory)", true
+		// (matched by the type of the object the map lives in, not by function: the defaults may be filled in by any helper)
+		if fr, ok := loadOfField(x.Map); ok && strings.HasSuffix(fr.Struct.Obj().Name(), "Config") {
+			if mt, ok := x.Map.Type().Underlying().(*types.Map); ok && !sameNamed(namedOf(mt.Elem()), c.a.TensorIface) {
+				return "fills defaults into a map field of a configuration struct, which is the caller's map when that was non-nil (config data: no tensor, slice or gradient memory is involved and no property covers it)", true
 			}
 		}
 	}
